@@ -262,6 +262,32 @@ def rule_p4(ctx) -> None:
     ctx.instance("C05-P4", "DataLoader.__next__ appends consecutive items of the source", nx.loc(), ok=ok)
     if not ok:
         ctx.finding("C05-P4", "DataLoader.__next__:order", nx.loc(), "DataLoader does not take consecutive items of its source in order")
+    # Dataset: the two ways of drawing items (iteration and next()) must see the same stream
+    ds = prog.cls("synrbl.SynUtils.batching.Dataset")
+    it, nx2 = ds.methods.get("__iter__"), ds.methods.get("__next__")
+    ctx.require(it is not None and nx2 is not None, "Dataset lost __iter__/__next__")
+
+    def self_attrs(m):
+        sn = m.params[0]
+        return {n.attr for n in own_nodes(m.node) if isinstance(n, ast.Attribute) and isinstance(n.value, ast.Name) and n.value.id == sn}
+
+    a_it, a_nx = self_attrs(it), self_attrs(nx2)
+    same = a_it == a_nx
+    ctx.instance("C05-P4", "Dataset.__iter__ and Dataset.__next__ draw from the same state (%s vs %s)" % (sorted(a_it), sorted(a_nx)), it.loc(), ok=same)
+    if not same:
+        ctx.finding("C05-P4", "Dataset:iter-next-disagree", it.loc(), "Dataset.__iter__ uses %s but Dataset.__next__ uses %s: items buffered for one way of reading are skipped or repeated by the other (DataLoader uses next(), the unbatched path iterates)" % (sorted(a_it), sorted(a_nx)))
+    for m in ds.methods.values():
+        if m.name in ("__next__", "__iter__", "__init__"):
+            continue
+        consumes = [c for c in calls(m) if isinstance(c.func, ast.Name) and c.func.id == "next" and c.args and "self." in unparse(c.args[0])]
+        if consumes:
+            sn = m.params[0]
+            buffers = {t.attr for n in own_nodes(m.node) if isinstance(n, ast.Assign) for t in n.targets if isinstance(t, ast.Attribute) and isinstance(t.value, ast.Name) and t.value.id == sn}
+            replayed = bool(buffers) and buffers <= a_it and buffers <= a_nx
+            ctx.instance("C05-P4", "Dataset.%s consumes items of the reader (buffer %s replayed by both reading paths: %s)" % (m.name, sorted(buffers), replayed), m.loc(consumes[0]), ok=replayed)
+            if replayed:
+                continue
+            ctx.finding("C05-P4", "Dataset.%s:consumes-reader" % m.name, m.loc(consumes[0]), "Dataset.%s takes an item from the underlying reader outside the iteration protocol; unless every reading path replays it, a row is lost" % m.name)
     # P5 (reported as a consequence): CLI zips inputs with outputs
     imp = prog.func("synrbl.SynCmd.cmd_run.impute")
     z = [n for n in own_nodes(imp.node) if isinstance(n, ast.For) and isinstance(n.iter, ast.Call) and getattr(n.iter.func, "id", "") == "zip"]
